@@ -22,8 +22,9 @@ def run(ctx):
         "the packetConn never delivers an empty packet (the real transport guarantees it)",
         "only connection-protocol message types (80-82, 90-100, 192) and one unassigned type are injected; transport/auth message "
         "numbers addressed to a channel id are outside the property's alphabet",
-        "each injected event runs to quiescence (testing/synctest) before the next: races between a reply and the start of a request "
-        "inside one step are not explored",
+        "each injected event runs to quiescence (testing/synctest) before the next; the one finer-grain interleaving explored is a "
+        "want-reply request whose writePacket is held by the transport (c35conn write gate) while 0..n peer replies / pings arrive, "
+        "then released; other races inside one step are not explored",
         "the application services both request streams and never starts two want-reply requests on one gate at once",
     ]
     if ctx.replay:
@@ -36,7 +37,7 @@ def run(ctx):
         ctx.absorb(ctx.go_test("c36", "TestReplay$", cases=[case], timeout=600))
         return
     q = not ctx.thorough
-    mcs = [("Q", 900), ("QLite", 900)] if q else [("Q", 900), ("T", 1500), ("T31", 1500), ("T32", 1800), ("TLite", 2400)]
+    mcs = [("Q", 900), ("QLite", 900), ("HoldQ", 900)] if q else [("Q", 900), ("T", 1500), ("T31", 1500), ("T32", 1800), ("TLite", 2400), ("HoldQ", 900), ("HoldT", 2400)]
     for name, to in mcs:
         r = ctx.tlc_must_hold("SSHMux_MC", cfg="SSHMux_%s.cfg" % name, timeout=to)
         ctx.log("TLC %s: %d generated, %d distinct, %.0fs" % (name, r.generated, r.distinct, r.wall))
@@ -45,7 +46,10 @@ def run(ctx):
         r = ctx.tlc("SSHMux_MC", cfg="SSHMux_Faithful.cfg", timeout=1500, expect_violation=True, count=False)
         ctx.notes.append("faithful model (RejectChecksSlot=FALSE): TLC reports %s" % (("violation of " + str(r.violated)) if r.violated else "no violation"))
 
-    gens = [("GenQ", None, None)] if q else [("GenT", None, None), ("GenTLite", None, None)]
+        # a design that drains only one buffered reply before a new request must violate M1 (sensitivity of the finer-grain model)
+        r = ctx.tlc("SSHMux_MC", cfg="SSHMux_HoldDrainOne.cfg", timeout=1500, expect_violation=True, count=False)
+        ctx.notes.append("DrainAll=FALSE variant: TLC reports %s" % (("violation of " + str(r.violated)) if r.violated else "no violation"))
+    gens = [("GenQ", None, None), ("GenHoldQ", None, None)] if q else [("GenT", None, None), ("GenTLite", None, None), ("GenHoldT", None, None)]
     gens.append(("Sim", ctx.pick(250, 3000), 12))
     if ctx.thorough:
         gens.append(("SimFull", 1500, 10))
